@@ -43,6 +43,9 @@ pub enum SOp {
     SetPartAgain { node: u8, part: u8 },
     /// collector `to` takes every key/bootstrap witness of `from` one by one
     Merge { from: u8, to: u8 },
+    /// node `to` receives an in-memory copy (clone) of the object node `from` holds - a wallet that keeps
+    /// what it loaded while a signing component works on a copy. From then on the two are separate parties
+    HandCopy { from: u8, to: u8 },
 }
 
 #[derive(Serialize, Deserialize, Clone, Debug)]
@@ -162,7 +165,7 @@ fn gen(seed: u64, tier: Tier) -> Case {
     for _ in 0..n {
         let node = r.below(NODES as u64) as u8;
         let key = r.below(6) as u8;
-        ops.push(match r.below(14) {
+        ops.push(match r.below(15) {
             0 => SOp::LoadOriginal { node, hex: r.chance(1, 2) },
             1 => {
                 if r.chance(1, 2) {
@@ -182,7 +185,14 @@ fn gen(seed: u64, tier: Tier) -> Case {
                     SOp::SetPartAgain { node, part: r.below(5) as u8 }
                 }
             }
-            _ => SOp::Merge { from: r.below(NODES as u64) as u8, to: node },
+            12 => SOp::Merge { from: r.below(NODES as u64) as u8, to: node },
+            _ => {
+                if r.chance(1, 2) {
+                    SOp::HandCopy { from: r.below(NODES as u64) as u8, to: node }
+                } else {
+                    SOp::Merge { from: r.below(NODES as u64) as u8, to: node }
+                }
+            }
         });
     }
     Case { session, foreign, ops, hash_seed: r.next(), presigned: r.chance(1, 2), legacy_shape: r.chance(1, 6), empty_fields: if r.chance(1, 4) { 1 + r.below(7) as u8 } else { 0 } }
@@ -737,6 +747,15 @@ fn execute(c: &Case) -> Outcome {
                     }
                 }
             }
+            SOp::HandCopy { from, to } => {
+                if from != to {
+                    if let Some(src) = &nodes[*from as usize] {
+                        let copy = NodeState { tx: src.tx.clone(), base: src.base.clone(), added_vkeys: src.added_vkeys.clone(), added_boots: src.added_boots.clone(), aux_override: src.aux_override.clone() };
+                        nodes[*to as usize] = Some(copy);
+                        out.count("c04.in_memory_copies_handed_over", 1);
+                    }
+                }
+            }
             SOp::Merge { from, to } => {
                 if from != to {
                     if let (Some(src), true) = (&nodes[*from as usize], nodes[*to as usize].is_some()) {
@@ -783,6 +802,7 @@ fn execute(c: &Case) -> Outcome {
             SOp::Restart { .. } => 9,
             SOp::SetPartAgain { .. } => 11,
             SOp::Merge { .. } => 10,
+            SOp::HandCopy { .. } => 12,
         });
         if !out.violations.is_empty() {
             break;
